@@ -3,12 +3,29 @@
 import json, subprocess
 props = [json.loads(l)['id'] for l in open('/verif/properties.jsonl')]
 
+COMMON_NOTE = ("Trusted: spec library /verif/spec (seccomp_data layout, cBPF semantics S-fwd/S-std, policy meaning), govc itself, SMT solvers; "
+  "meta-theory axiom MT-3 (block composition); the contract of Program.Assemble (label resolution, property C06) is used, not re-proved, here; "
+  "int is 64-bit, slice lengths < 2^56, label counters < 2^62; nativeEndian is one of the two byte orders.")
+TECH = "contract-based deductive verification: VCs generated from the Go AST of the real functions (contracts in //@ files), loop invariants, ghost cBPF interpreter state, lemmas; discharged by z3/cvc5"
 CLAIMED = {
+ "C01": dict(
+   text="Proof for all policies, all events (ghost event: every 32-bit nr, any args) and all architectures with tables (arch.Info symbolic): postcondition of Policy.Assemble 'run(result) = decisionRel(policy, event)' = action of the first matching group else default, errno encoded with EPERM; carried by contracts of SyscallGroup.assemble, toSyscallsWithConditions (names->numbers, any number of names), SyscallWithConditions.Assemble, Program.Ret/JmpIf/... with loop invariants over groups, names, lists; no bound on sizes.",
+   note=COMMON_NOTE, technique=TECH, ref="7 C01"),
  "C02": dict(
    text="Proof, for all 2^64 operands x 2^64 arguments x argument index 0-5 x both byte orders x all eight operations: the inner-loop invariant of SyscallWithConditions.Assemble (live <=> all conditions so far hold as unsigned 64-bit relations) is preserved by the code emitted for each operation; LdHi/LdLo proved to address the correct word of seccomp_data for either layout. Bit-vector obligations are decided exactly (no sampling, no bound).",
-   note="Trusted: spec library (seccomp_data layout, cBPF step semantics, rel64), govc itself, solvers; nativeEndian is one of the two byte orders (init() not verified); int 64-bit. Relies on Program.Assemble's contract (C06) only for the link from label-level to resolved program.",
-   technique="contract-based deductive verification: WP-style VC generation over the Go AST, loop invariants, ghost cBPF interpreter state, SMT (bit-vectors)",
-   ref="7 C02"),
+   note=COMMON_NOTE, technique=TECH, ref="7 C02"),
+ "C03": dict(
+   text="Proof: an entry matches iff number equal and some list has all conditions true (loop invariants of SyscallWithConditions.Assemble over lists and conditions); on failure control falls through with the accumulator equal to the syscall number again (no_leak postcondition), toSyscallsWithConditions preserves the meaning of the group while merging lists per syscall (pointer write through getSyscall modelled), groups evaluated in order (Policy.Assemble invariant polRel). Stated for entries whose lists are non-empty (C07's carve-out).",
+   note=COMMON_NOTE, technique=TECH, ref="7 C03"),
+ "C04": dict(
+   text="Proof for all policies, both encodings of the architecture jump (jumpN<=255 and >255 decided symbolically) and all events: foreign arch -> default action, x86_64 with nr >=u 0x40000000 -> ERRNO|ENOSYS, independent of the rules (the group blocks are opaque in these obligations). Long variant stated for programs below 2^32 instructions.",
+   note=COMMON_NOTE, technique=TECH, ref="7 C04"),
+ "C05": dict(
+   text="Proof: every program returned with nil error and <= 4096 instructions satisfies kernelAccepts (transcription of bpf_check_classic + seccomp_check_filter for the emitted kinds: non-empty, last insn ret, aligned in-record 32-bit loads, all jumps land inside); builder invariant progOK carried through every primitive; return values confined to the ghost set of values passed to Ret (group level).",
+   note=COMMON_NOTE+" Encodability by bpf.Assemble is assumed from the instruction kinds (x/net contract). The policy-level closed return set is proved at group level (retsInSet) and for the x32/default returns by the prologue hints; the quantified union over groups (retsActUpTo) is an invariant of Policy.Assemble.", technique=TECH, ref="7 C05"),
+ "C07": dict(
+   text="Proof of (a) no panic: all automatically generated safety obligations (index, nil map, nil deref, type assertion, overflow, truncation) on the compile path for arbitrary policy values; (b) error => no program; (c) each listed defect => error (Policy.Validate, toSyscallsWithConditions, ArgumentConditions.Validate incl. unknown operations, GetInfo). Clause (d) 'valid policies are accepted' is NOT proved (needs Program.Assemble's no-error clause); the witness family exercises it.",
+   note=COMMON_NOTE+" Groups' unexported arch field is assumed nil (policies constructed through the Go API).", technique=TECH, ref="7 C07"),
 }
 NA_REASON = "check not built yet (work in progress; DESIGN.md section 7 describes the planned contracts)"
 
